@@ -18,7 +18,10 @@ Two oracles per generated case:
     the transformed run (sample of measures, marginals, labels, fills, position lists, pairwise sets).
 
 Known open findings (reported as KNOWN-FINDING, see known_findings.d/C05-*.json) are matched by the
-narrow signature contexts built in c05_util.check_pair.
+narrow signature contexts built in c05_util.check_pair.  Two former findings are repaired in /repo and
+are plain requirements now: a display order never lists anything twice, whatever the fixed lists of a
+value sort name (C05-fixed-repeats, 471ab8ef), and the position lists never raise, however many
+subtotals a dimension has (C05-derived-idxs-indexerror, 434a0d94); their witnesses are fixed cases.
 """
 import json
 import random
@@ -66,12 +69,26 @@ def _catxcat(counts, row_ids, col_ids, row_values=None, col_values=None):
 
 def witness_cases():
     out = []
-    # C05-fixed-repeats: fixed.top = [2, 2], bottom = [2] lists row 2 three times
-    out.append({"k": -1, "name": "fixed-repeats", "malformed": False, "strand": False, "kinds": ["cat", "cat"],
+    # former finding C05-fixed-repeats (repaired in /repo 471ab8ef): fixed.top = [2, 2], bottom = [2]
+    # listed row 2 three times (row_order [1, 1, 2, 0, 1]); now [1, 2, 0]
+    out.append({"k": -1, "name": "fixed-repeats-repaired", "malformed": False, "strand": False,
+                "kinds": ["cat", "cat"],
                 "response": _catxcat([[1, 2], [3, 4], [5, 6]], [1, 2, 3], [1, 2]),
                 "transforms": {"rows_dimension": {"order": {
                     "type": "opposing_element", "element_id": 1, "measure": "count_unweighted",
                     "fixed": {"top": [2, 2], "bottom": [2]}}}}})
+    # former finding C05-derived-idxs-indexerror (repaired in /repo 434a0d94): one valid column category
+    # and three subtotals on it - derived_column_idxs raised IndexError (flag vector padded with
+    # n_elements); rows: a value sort with the same id at both ends of the fixed lists
+    ins = [{"function": "subtotal", "name": "s%d" % k, "anchor": a, "args": [1]}
+           for k, a in enumerate(["top", 1, "bottom"])]
+    out.append({"k": -5, "name": "derived-idxs-repaired", "malformed": False, "strand": False,
+                "kinds": ["cat", "cat"],
+                "response": _catxcat([[1], [2], [3]], [1, 2, 3], [1]),
+                "transforms": {"columns_dimension": {"insertions": ins},
+                               "rows_dimension": {"order": {
+                                   "type": "opposing_insertion", "insertion_id": 1, "measure": "count_unweighted",
+                                   "direction": "ascending", "fixed": {"top": [3], "bottom": [1, 3, 1]}}}}})
     # former finding (repaired in /repo eed80ace): hiding row 1 changed columns_scale_mean_margin
     # 2.0 -> 2.666..; the margins must now be invariant like every scalar
     out.append({"k": -2, "name": "scale-margins-hidden-repaired", "malformed": False, "strand": False,
@@ -206,7 +223,7 @@ def model_terms(case, res, rng):
                 ok = False
                 break
             got.append([int(x) for x in va[1]])
-        if ok and len(derived) == nn and len(is_diff) == mm and (strand or mm <= nn):
+        if ok and len(derived) == nn and len(is_diff) == mm:
             out.append(("%s position lists" % ax_name,
                         "run_positions %s %s %s %s" % (g_list([g_bool(b) for b in derived]),
                                                        g_list([g_bool(b) for b in is_diff]),
@@ -443,8 +460,9 @@ def run(tier, seed):
         chunk = cases[s:s + step]
         run_cases(rep, chunk, max(0, min(len(chunk), n_model_cases - s)), mrng)
     rep.cov["rule"] = (
-        "4 fixed cases (witnesses of C05-fixed-repeats and C05-scale-mean-pairwise-hidden, the repaired scale-margin "
-        "witness, one plain case) + cases "
+        "5 fixed cases (the former witnesses of the repaired findings C05-fixed-repeats, "
+        "C05-derived-idxs-indexerror and of the scale margins, the witness of C05-scale-mean-pairwise-hidden, one "
+        "plain case) + cases "
         "from random.Random(seed+5): slices over CAT|CAT_DATE|MR|DATETIME|TEXT|BINNED x the same, CA_SUBVAR x "
         "CA_CAT, 3-D cubes (one table), strands over CAT|CAT_DATE|MR|TEXT|DATETIME; 0..50 respondents, "
         "weighted 60%, emptied categories / items for pruning; view and/or transform insertions incl. "
@@ -470,7 +488,7 @@ def run(tier, seed):
         "Model/Assemble.v is hand-written; tied to cubepart.py (_assemble_matrix/_assemble_marginal/"
         "_assemble_vector, labels, fills, *_idxs, pairwise_indices) by the correspondence run on sampled "
         "outputs; ALL outputs are covered by the relational oracle on the implementation alone",
-        "Model/Collator.v (order_nodup theorems) is tied to collator.py by the checks C07/C09 (and C08 when built)"])
+        "Model/Collator.v (order_nodup theorems) is tied to collator.py by the checks C07/C08/C09"])
 
 
 def replay(path):
